@@ -415,6 +415,15 @@ Del(f, k) == [x \in DOMAIN f \ {k} |-> f[x]]
 StOids(st) == IF "toks" \in DOMAIN st THEN [i \in 1..CountParams(st.toks) |-> 0] ELSE st.oids
 
 ExtFail(e) == emit' = <<Rv(e)>> /\ skip' = TRUE
+ExtFailP(pre, e) == emit' = pre \o <<Rv(e)>> /\ skip' = TRUE
+
+\* A server configured with its own statement / portal caches (options
+\* Statements, Portals): the library resolves names only through them.  The
+\* calls are observable; their order follows from the data they need.
+Custom == "cache" \in DOMAIN cfg /\ cfg.cache = "custom"
+CC(evs) == IF Custom THEN evs ELSE <<>>
+CacheCb(op, key) == Cb([name |-> op, key |-> key])
+CacheGet(op, key, hit) == Cb([name |-> op, key |-> key, hit |-> hit])
 
 DoParse ==
     /\ Reading("ready") /\ ~skip /\ Head1.t = "P"
@@ -424,7 +433,7 @@ DoParse ==
        THEN emit' = <<ParseCb(q), Rv(ErrRec(q.perr))>> /\ skip' = TRUE /\ UNCHANGED stmts
        ELSE IF Len(q.stmts) # 1
        THEN emit' = <<ParseCb(q), Rv(ErrAny)>> /\ skip' = TRUE /\ UNCHANGED stmts
-       ELSE /\ emit' = <<ParseCb(q), Rv(MsgParseComplete)>>
+       ELSE /\ emit' = <<ParseCb(q)>> \o CC(<<CacheCb("st.set", Head1.name)>>) \o <<Rv(MsgParseComplete)>>
             /\ stmts' = Put(stmts, Head1.name, q.stmts[1])
             /\ UNCHANGED skip
     /\ UNCHANGED <<cfg, phase, ssl, mwi, cparams, eof, faulted, portals, hq, h>>
@@ -441,8 +450,8 @@ DoBind ==
     /\ Reading("ready") /\ ~skip /\ Head1.t = "B"
     /\ Consume
     /\ IF Head1.stmt \notin DOMAIN stmts
-       THEN ExtFail(ErrAny) /\ UNCHANGED portals
-       ELSE /\ emit' = <<Rv(MsgBindComplete)>>
+       THEN ExtFailP(CC(<<CacheGet("st.get", Head1.stmt, FALSE)>>), ErrAny) /\ UNCHANGED portals
+       ELSE /\ emit' = CC(<<CacheGet("st.get", Head1.stmt, TRUE), CacheCb("po.bind", Head1.portal)>>) \o <<Rv(MsgBindComplete)>>
             /\ portals' = Put(portals, Head1.portal,
                               [st |-> stmts[Head1.stmt], params |-> Tagged(Head1), rfmt |-> Head1.rfmt])
             /\ UNCHANGED skip
@@ -456,10 +465,12 @@ DoDescribe ==
     /\ Consume
     /\ IF Head1.kind = "S" /\ Head1.name \in DOMAIN stmts
        THEN LET st == stmts[Head1.name] IN
-            emit' = <<Rv(MsgParamDesc(StOids(st))), RowDescOrNoData(st.cols, <<>>)>> /\ UNCHANGED skip
+            emit' = CC(<<CacheGet("st.get", Head1.name, TRUE)>>) \o <<Rv(MsgParamDesc(StOids(st))), RowDescOrNoData(st.cols, <<>>)>> /\ UNCHANGED skip
        ELSE IF Head1.kind = "P" /\ Head1.name \in DOMAIN portals
        THEN LET p == portals[Head1.name] IN
-            emit' = <<RowDescOrNoData(p.st.cols, p.rfmt)>> /\ UNCHANGED skip
+            emit' = CC(<<CacheGet("po.get", Head1.name, TRUE)>>) \o <<RowDescOrNoData(p.st.cols, p.rfmt)>> /\ UNCHANGED skip
+       ELSE IF Head1.kind = "S" THEN ExtFailP(CC(<<CacheGet("st.get", Head1.name, FALSE)>>), ErrAny)
+       ELSE IF Head1.kind = "P" THEN ExtFailP(CC(<<CacheGet("po.get", Head1.name, FALSE)>>), ErrAny)
        ELSE ExtFail(ErrAny)
     /\ UNCHANGED <<cfg, phase, ssl, mwi, cparams, eof, faulted, stmts, portals, hq, h>>
 
@@ -467,9 +478,9 @@ DoExecute ==
     /\ Reading("ready") /\ ~skip /\ Head1.t = "E"
     /\ Consume
     /\ IF Head1.portal \notin DOMAIN portals
-       THEN ExtFail(ErrAny) /\ UNCHANGED h
+       THEN ExtFailP(CC(<<CacheCb("po.exec", Head1.portal)>>), ErrAny) /\ UNCHANGED h
        ELSE LET p == portals[Head1.portal] IN
-            /\ emit' = <<StartCb(p.st, 1, p.params)>>
+            /\ emit' = CC(<<CacheCb("po.exec", Head1.portal)>>) \o <<StartCb(p.st, 1, p.params)>>
             /\ h' = Frame(p.st, "ext", 1, p.params, p.rfmt)
             /\ UNCHANGED skip
     /\ UNCHANGED <<cfg, phase, ssl, mwi, cparams, eof, faulted, stmts, portals, hq>>
@@ -479,9 +490,9 @@ DoClose ==
     /\ Reading("ready") /\ ~skip /\ Head1.t = "C"
     /\ Consume
     /\ IF Head1.kind = "S"
-       THEN emit' = <<Rv(MsgCloseComplete)>> /\ stmts' = Del(stmts, Head1.name) /\ UNCHANGED <<portals, skip>>
+       THEN emit' = CC(<<CacheCb("st.close", Head1.name)>>) \o <<Rv(MsgCloseComplete)>> /\ stmts' = Del(stmts, Head1.name) /\ UNCHANGED <<portals, skip>>
        ELSE IF Head1.kind = "P"
-       THEN emit' = <<Rv(MsgCloseComplete)>> /\ portals' = Del(portals, Head1.name) /\ UNCHANGED <<stmts, skip>>
+       THEN emit' = CC(<<CacheCb("po.close", Head1.name)>>) \o <<Rv(MsgCloseComplete)>> /\ portals' = Del(portals, Head1.name) /\ UNCHANGED <<stmts, skip>>
        ELSE ExtFail(ErrAny) /\ UNCHANGED <<stmts, portals>>
     /\ UNCHANGED <<cfg, phase, ssl, mwi, cparams, eof, faulted, hq, h>>
 
